@@ -224,7 +224,10 @@ def solve_milp(
         counter += 1
 
     if best_solution is None:
-        return Result(None, float("inf") if minimize else float("-inf"), nodes_explored, total_iters, Status.INFEASIBLE)
+        # Without an incumbent the problem is infeasible only if every node was explored;
+        # open nodes left behind mean the node budget ran out first.
+        no_incumbent = Status.INFEASIBLE if not tree else Status.MAX_ITER
+        return Result(None, float("inf") if minimize else float("-inf"), nodes_explored, total_iters, no_incumbent)
 
     status = Status.OPTIMAL if not tree else Status.FEASIBLE
     if solution_limit > 1 and all_solutions:
